@@ -466,6 +466,11 @@ char *realpath(const char *path, char *resolved) {
     int saved = errno;
     if (r) logev2("realpath", path, r);
     else logev("realpath", path, -saved);
+    if (r && err == -2) {
+        /* the file vanishes between resolution and use */
+        syscall(SYS_unlink, r);
+        logev("vanish", r, 0);
+    }
     errno = saved;
     return r;
 }
